@@ -540,6 +540,9 @@ def main():
     # spaces (recorded assumption) — such texts are left to the oracle above
     uni_ws = set('\x1c\x1d\x1e\x1f\x85\xa0\u1680\u2028\u2029\u202f\u205f\u3000') | \
         {chr(c) for c in range(0x2000, 0x200b)}
+    # the lexer's escaped quotation mark at the start, in the middle and at the end of a string
+    lex_texts += ['println "\\"hi\\""', 'print "say \\"hi\\" now" hue 5', 'assign s "\\""', 'println "\\"\\""',
+                  'printf "name=\\"{}\\"" 5', 'define m "a\\"b" print m', 'print "" print "\\"" # c']
     lex_texts = [t for t in lex_texts if not (set(t) & uni_ws)]
     answers = chk.driver.ask_many([('lex.tokens', [t]) for t in lex_texts])
     stats['lex_requests'] = len(lex_texts)
